@@ -606,6 +606,7 @@ pixman_image_composite32 (pixman_op_t      op,
     /* Check for pixbufs */
     if ((mask_format == PIXMAN_a8r8g8b8 || mask_format == PIXMAN_a8b8g8r8) &&
 	(src->type == BITS && src->bits.bits == mask->bits.bits)	   &&
+	(src->bits.rowstride == mask->bits.rowstride)			   &&
 	(src->common.repeat == mask->common.repeat)			   &&
 	(info.src_flags & info.mask_flags & FAST_PATH_ID_TRANSFORM)	   &&
 	(src_x == mask_x && src_y == mask_y))
